@@ -164,7 +164,7 @@ def run(m, chk):
         "no IndexError from the constructor's index scans (X-INDEX), span/mult/split dominated by the valid ⇒ ValueError guard. "
         "Completeness of the validator (that it accepts exactly the clamped vectors) and the values of span/mult are not decided."
     )
-    chk.decides = ["LOSSY-COMPARE (exact knots and nodes are not compared through their float image)", "UNORDERED (the sortedness test of the validator rejects a pair that is not ordered at all)", "FUNNEL", "COMMIT-LAST (KnotVector)", "V1", "X-INDEX", "GATE(valid ⇒ ValueError) for span/mult/split", 'MULT-KEEP (distinct knots never become knot-vector elements without their multiplicity)']
+    chk.decides = ["TOL-ABSOLUTE (knot identity is decided on differences, never with a tolerance relative to the knots)", "LOSSY-COMPARE (exact knots and nodes are not compared through their float image)", "UNORDERED (the sortedness test of the validator rejects a pair that is not ordered at all)", "FUNNEL", "COMMIT-LAST (KnotVector)", "V1", "X-INDEX", "GATE(valid ⇒ ValueError) for span/mult/split", 'MULT-KEEP (distinct knots never become knot-vector elements without their multiplicity)']
     chk.not_decided = ["completeness of __is_valid (tails / unclamped vectors are accepted — seen by reading, out of static reach)", "agreement of span/mult/knots/limits values with the element list"]
 
     # 1. funnel ------------------------------------------------------------------------------
@@ -288,3 +288,6 @@ def run(m, chk):
     from .extra import lossy_compare
 
     lossy_compare(r, chk, m.exact())
+    from .extra import tol_absolute
+
+    tol_absolute(r, chk, ["heavy.ImmutableKnotVector.__get_unique", "heavy.ImmutableKnotVector.__mult_single", "heavy.ImmutableKnotVector.__span_single", "heavy.ImmutableKnotVector.__valid_single", "heavy.ImmutableKnotVector.__is_valid"])
